@@ -75,6 +75,8 @@ def run(tier, repo):
             for i, st in enumerate(seq["steps"]):
                 k = st[0]
                 here = "%s/%d:%s" % (p, i, k)
+                if k in ("guard", "bytes", "ite", "switch", "cond", "count") and '["input"]' in json.dumps([x for x in st if not isinstance(x, dict)][:4]):
+                    bad.append(here + "(input length)")
                 if k in ("many0", "many1", "opt", "complete", "all_consuming", "alt", "count") and k != "count":
                     bad.append(here)
                 if k == "bytes" and st[2] == ["remaining"]:
